@@ -15,3 +15,12 @@
 (define-fun winLen ((total (_ BitVec 64)) (skip (_ BitVec 64)) (limit (_ BitVec 64))) (_ BitVec 64)
   (let ((rest (ite (bvslt (bvsub total skip) #x0000000000000000) #x0000000000000000 (bvsub total skip))))
     (ite (and (bvsge limit #x0000000000000000) (bvslt limit rest)) limit rest)))
+; lexicographic comparison of two documents on a list of sort options, from option k on (opaque; "reveal" unfolds one
+; step): the first option on which the documents do not tie decides, with its direction; 0 if all tie
+(declare-fun lexFrom ((Array Ref Str) (Array Ref (_ BitVec 64)) Slice (_ BitVec 64) Doc Doc) Int)
+; statefun: lexFrom F_query_SortOption_Field F_query_SortOption_Direction
+; statefun: lexFrom!def F_query_SortOption_Field F_query_SortOption_Direction
+(define-fun lexFrom!def ((ff (Array Ref Str)) (dd (Array Ref (_ BitVec 64))) (opts Slice) (k (_ BitVec 64)) (a Doc) (b Doc)) Int
+  (ite (bvsge k (sllen opts)) 0
+       (ite (not (= (optCmp ff dd opts k a b) 0)) (sign3 (optCmp ff dd opts k a b))
+            (lexFrom ff dd opts (bvadd k #x0000000000000001) a b))))
